@@ -1,7 +1,10 @@
 package sim
 
 import (
+	"bytes"
+	"encoding/hex"
 	"fmt"
+	"regexp"
 	"sort"
 	"strings"
 
@@ -10,6 +13,9 @@ import (
 	authtypes "github.com/cosmos/cosmos-sdk/x/auth/types"
 	"github.com/ethereum/go-ethereum/common"
 
+	channeltypes "github.com/cosmos/ibc-go/v8/modules/core/04-channel/types"
+
+	fxtypes "github.com/functionx/fx-core/v8/types"
 	cctypes "github.com/functionx/fx-core/v8/x/crosschain/types"
 	erc20types "github.com/functionx/fx-core/v8/x/erc20/types"
 )
@@ -25,10 +31,13 @@ import (
 // FX (also minted, staked, burnt elsewhere): the equation is stated on the eth module's
 // escrow account: escrow == R0 − credited + inflight + executedOut.
 
+var digitRun = regexp.MustCompile(`[0-9]+[0-9A-Fa-fx]*`)
+
 type c04Group struct {
 	base             string
 	credited         sdkmath.Int
 	execOut          sdkmath.Int
+	ibcOut           sdkmath.Int // left over IBC: packets IBC core committed (voucher burnt / coin escrowed by ICS-20)
 	perChainCredited map[string]sdkmath.Int
 	perChainOut      map[string]sdkmath.Int
 }
@@ -36,6 +45,7 @@ type c04Group struct {
 type c04Model struct {
 	groups  map[string]*c04Group // by base denom
 	balPre  map[string]sdkmath.Int
+	modPre  map[string]sdkmath.Int // balances of the transfer module account before the step
 	escrow0 sdkmath.Int
 	inited  bool
 	donated map[string]sdkmath.Int
@@ -44,7 +54,7 @@ type c04Model struct {
 func newC04(st *BridgeSt) *c04Model {
 	m := &c04Model{groups: map[string]*c04Group{}, balPre: map[string]sdkmath.Int{}, donated: map[string]sdkmath.Int{}}
 	for _, b := range []string{"FX", "usdt"} {
-		m.groups[b] = &c04Group{base: b, credited: sdkmath.ZeroInt(), execOut: sdkmath.ZeroInt(), perChainCredited: map[string]sdkmath.Int{}, perChainOut: map[string]sdkmath.Int{}}
+		m.groups[b] = &c04Group{base: b, credited: sdkmath.ZeroInt(), execOut: sdkmath.ZeroInt(), ibcOut: sdkmath.ZeroInt(), perChainCredited: map[string]sdkmath.Int{}, perChainOut: map[string]sdkmath.Int{}}
 	}
 	return m
 }
@@ -88,6 +98,67 @@ func (m *c04Model) before(r *Run, s *Step) {
 			m.balPre[k.Bech()+"|"+c.Denom] = c.Amount
 		}
 	}
+	m.modPre = map[string]sdkmath.Int{}
+	for _, c := range w.App.BankKeeper.GetAllBalances(ctx, authtypes.NewModuleAddress(ibcPort)) {
+		m.modPre[c.Denom] = c.Amount
+	}
+}
+
+// finish: bounded liveness after the run - an observed deposit that names an open IBC route (and, for a coin
+// that leaves as an alias voucher, finds enough vouchers in stock) can be credited: executing its parked claim
+// succeeds. Judged on a branch with the real keeper; nothing else about parked claims is demanded.
+func (m *c04Model) finish(r *Run, c *bridgeChecks) []Violation {
+	var vs []Violation
+	vc := r.Cfg.World.IbcVoucher
+	if vc == nil {
+		return nil
+	}
+	st := bst(r)
+	w := r.W
+	seen := map[string]bool{}
+	for _, ch := range st.Chains {
+		v := w.ViewChain(w.Ctx(), ch.Name)
+		for _, n := range v.SortedPending() {
+			cl, ok := v.Pending[n].(*cctypes.MsgSendToFxClaim)
+			if !ok || cl.TargetIbc == "" {
+				continue
+			}
+			tg, _ := hex.DecodeString(cl.TargetIbc)
+			ft := fxtypes.ParseFxTarget(string(tg))
+			tk := ch.tokenByContract(cl.TokenContract)
+			if tk == nil || !ft.IsIBC() || ft.SourcePort != ibcPort || ft.SourceChannel != vc.Chan {
+				continue
+			}
+			if _, err := sdk.AccAddressFromBech32(cl.Receiver); err != nil {
+				continue
+			}
+			if tk.Base != "FX" {
+				stock := w.App.BankKeeper.GetBalance(w.Ctx(), authtypes.NewModuleAddress(ibcPort), bridgeVoucherDenom(vc)).Amount
+				if stock.LT(cl.Amount) {
+					r.Probe("parked-deposit:voucher-stock-short")
+					continue
+				}
+				if pair, ok := w.App.Erc20Keeper.GetTokenPair(w.Ctx(), tk.Base); !ok || !pair.Enabled {
+					continue
+				}
+			}
+			var err error
+			func() {
+				defer func() {
+					if rec := recover(); rec != nil {
+						err = fmt.Errorf("panic: %v", rec)
+					}
+				}()
+				err = ch.keeper(w).ExecuteClaim(w.Branch(), n)
+			}()
+			r.Probe("parked-deposit:tried-on-branch")
+			if err != nil && !seen[tk.Symbol] {
+				seen[tk.Symbol] = true
+				vs = append(vs, viol("deposit-creditable", "send_to_fx/"+tk.Symbol+"/open-ibc-route", "%s: observed deposit %d of %s %s for %s with target %s is parked and cannot be executed although the route is open: %s", ch.Name, n, cl.Amount, tk.Symbol, cl.Receiver, tg, firstLine(err.Error())))
+			}
+		}
+	}
+	return vs
 }
 
 func (m *c04Model) balBefore(acc sdk.AccAddress, denom string) sdkmath.Int {
@@ -207,6 +278,62 @@ func (m *c04Model) check(r *Run, c *bridgeChecks, s *Step, o *Outcome) []Violati
 			}
 		}
 	}
+	// value that left over IBC in this step: every packet announced by a successful transaction whose
+	// commitment IBC core really stores (state of another module, not of the bridge)
+	if vc := r.Cfg.World.IbcVoucher; vc != nil && o != nil {
+		for i := range o.Txs {
+			t := &o.Txs[i]
+			if t.Res == nil || !t.Res.OK() {
+				continue
+			}
+			for _, p := range ibcPacketsFromEvents(t.Res) {
+				if !p.RawOK {
+					continue
+				}
+				com := w.App.IBCKeeper.ChannelKeeper.GetPacketCommitment(ctx, p.Pkt.SourcePort, p.Pkt.SourceChannel, p.Pkt.Sequence)
+				if !bytes.Equal(com, channeltypes.CommitPacket(w.App.AppCodec(), p.Pkt)) {
+					r.Probe("ibc-packet-event-without-commitment")
+					continue
+				}
+				amt, ok := sdkmath.NewIntFromString(p.Data.Amount)
+				if !ok {
+					continue
+				}
+				switch p.Data.Denom {
+				case "transfer/" + vc.Chan + "/" + vc.Base:
+					m.groups["usdt"].ibcOut = m.groups["usdt"].ibcOut.Add(amt)
+					r.Probe("deposit-forwarded-over-ibc:usdt")
+					moved = true
+				case "FX":
+					m.groups["FX"].ibcOut = m.groups["FX"].ibcOut.Add(amt)
+					r.Probe("deposit-forwarded-over-ibc:FX")
+				}
+			}
+		}
+	}
+	if r.Cfg.World.IbcVoucher != nil && o != nil {
+		for i := range o.Txs {
+			t := &o.Txs[i]
+			if t.Tx == nil || t.Res == nil || t.Tx.K != "execute_claim" || t.Res.OK() {
+				continue
+			}
+			if ch := st.chain(t.Tx.A.Str("chain")); ch != nil {
+				if cl, ok := c.pre[ch.Name].Pending[t.Tx.A.U64("n")].(*cctypes.MsgSendToFxClaim); ok && cl.TargetIbc != "" {
+					tg, _ := hex.DecodeString(cl.TargetIbc)
+					sym := "?"
+					if tk := ch.tokenByContract(cl.TokenContract); tk != nil {
+						sym = tk.Symbol
+					}
+					reason := t.Res.Log + " " + t.Res.VmError
+					reason = digitRun.ReplaceAllString(reason, "N")
+					if len(reason) > 60 {
+						reason = reason[:60]
+					}
+					r.Probe("ibc-target-exec-refused:" + sym + ":" + string(tg) + ":" + reason)
+				}
+			}
+		}
+	}
 	if len(okTxs(o, "send_to_external"))+len(okTxs(o, "cancel_send"))+len(okTxs(o, "bridge_call"))+len(okTxs(o, "increase_fee")) > 0 {
 		moved = true
 	}
@@ -214,7 +341,7 @@ func (m *c04Model) check(r *Run, c *bridgeChecks, s *Step, o *Outcome) []Violati
 		r.Nontrivial = true
 	}
 	// ---- group balance: bridged coin
-	modules := []sdk.AccAddress{authtypes.NewModuleAddress(erc20types.ModuleName)}
+	modules := []sdk.AccAddress{authtypes.NewModuleAddress(erc20types.ModuleName), authtypes.NewModuleAddress(ibcPort)}
 	for _, n := range AllChains {
 		modules = append(modules, authtypes.NewModuleAddress(n))
 	}
@@ -224,6 +351,9 @@ func (m *c04Model) check(r *Run, c *bridgeChecks, s *Step, o *Outcome) []Violati
 			if tk := ch.tokenByBase("usdt"); tk != nil {
 				denoms = append(denoms, cctypes.NewBridgeDenom(ch.Name, ExtAddrStr(ch.Name, tk.Contract)))
 			}
+		}
+		if vc := r.Cfg.World.IbcVoucher; vc != nil {
+			denoms = append(denoms, bridgeVoucherDenom(vc)) // the IBC voucher is one more representation of the coin
 		}
 		held := sdkmath.ZeroInt()
 		for _, d := range denoms {
@@ -244,9 +374,9 @@ func (m *c04Model) check(r *Run, c *bridgeChecks, s *Step, o *Outcome) []Violati
 		for _, ch := range st.Chains {
 			infl = infl.Add(getOr0(inflightOf(ch, c.post[ch.Name]), "usdt"))
 		}
-		want := g.credited.Sub(g.execOut)
+		want := g.credited.Sub(g.execOut).Sub(g.ibcOut)
 		if !held.Add(infl).Equal(want) {
-			vs = append(vs, viol("group-balance", c04Site(s, o)+"/module-coin", "usdt: held %s + inflight %s != credited %s - executed-out %s", held, infl, g.credited, g.execOut))
+			vs = append(vs, viol("group-balance", c04Site(s, o)+"/module-coin", "usdt: held %s + inflight %s != credited %s - executed-out %s - sent on over IBC %s", held, infl, g.credited, g.execOut, g.ibcOut))
 		}
 		r.State(fmt.Sprintf("usdt:h%d/i%d", sign3(held), sign3(infl)))
 	}
@@ -267,6 +397,48 @@ func (m *c04Model) check(r *Run, c *bridgeChecks, s *Step, o *Outcome) []Violati
 				continue
 			}
 			vs = append(vs, m.stepDelta(r, c, &t)...)
+		}
+	}
+	// ---- a deposit that travels on over IBC moves exactly its amount: out of the transfer module's voucher
+	// stock (alias voucher) or as the coin itself (FX), and touches nothing else the transfer module holds
+	if vc := r.Cfg.World.IbcVoucher; vc != nil && s.Kind == "block" && deliveredCount(o) == 1 && s.N <= 1 {
+		for _, t := range okTxs(o, "execute_claim") {
+			ch := st.chain(t.Tx.A.Str("chain"))
+			if ch == nil {
+				continue
+			}
+			cl, ok := c.pre[ch.Name].Pending[t.Tx.A.U64("n")].(*cctypes.MsgSendToFxClaim)
+			if !ok || cl.TargetIbc == "" {
+				continue
+			}
+			tg, _ := hex.DecodeString(cl.TargetIbc)
+			tk := ch.tokenByContract(cl.TokenContract)
+			if tk == nil || !fxtypes.ParseFxTarget(string(tg)).IsIBC() {
+				continue
+			}
+			r.Probe("ibc-leg-exact:" + tk.Symbol)
+			tm := authtypes.NewModuleAddress(ibcPort)
+			vd := bridgeVoucherDenom(vc)
+			for _, d := range []string{"FX", "usdt", vd} {
+				pre := getOr0(m.modPre, d)
+				post := w.App.BankKeeper.GetBalance(ctx, tm, d).Amount
+				want := pre
+				if d == vd && tk.Base == "usdt" {
+					want = pre.Sub(cl.Amount)
+				}
+				if !post.Equal(want) {
+					vs = append(vs, viol("ibc-leg-exact", "execute_claim/"+tk.Symbol+"/transfer-module-"+denomKind(d), "deposit %d of %s %s with target %s: the transfer module account held %s %s before and %s after, expected %s", cl.EventNonce, cl.Amount, tk.Symbol, tg, pre, d, post, want))
+				}
+			}
+			sent := sdkmath.ZeroInt()
+			for _, p := range ibcPacketsFromEvents(t.Res) {
+				if a, ok := sdkmath.NewIntFromString(p.Data.Amount); ok && p.RawOK && bytes.Equal(w.App.IBCKeeper.ChannelKeeper.GetPacketCommitment(ctx, p.Pkt.SourcePort, p.Pkt.SourceChannel, p.Pkt.Sequence), channeltypes.CommitPacket(w.App.AppCodec(), p.Pkt)) {
+					sent = sent.Add(a)
+				}
+			}
+			if !sent.Equal(cl.Amount) {
+				vs = append(vs, viol("ibc-leg-exact", "execute_claim/"+tk.Symbol+"/packet-amount", "deposit %d of %s %s with target %s was executed, IBC core committed packets over %s", cl.EventNonce, cl.Amount, tk.Symbol, tg, sent))
+			}
 		}
 	}
 	// ---- withdrawable
@@ -392,8 +564,12 @@ func (m *c04Model) stepDelta(r *Run, c *bridgeChecks, t *TxOutcome) []Violation 
 			}
 			switch m2 := cl.(type) {
 			case *cctypes.MsgSendToFxClaim:
+				tgt, _ := hex.DecodeString(m2.TargetIbc)
 				if tk := ch.tokenByContract(m2.TokenContract); tk != nil && m2.TargetIbc == "" {
 					addTo(expect, m2.Receiver+"|"+tk.Base, m2.Amount)
+				} else if tk != nil && tk.Base != "FX" && r.Cfg.World.IbcVoucher != nil && fxtypes.ParseFxTarget(string(tgt)).IsIBC() {
+					// credited and sent on over IBC in the same transaction: no tracked balance moves
+					r.Probe("step-delta:deposit-forwarded-over-ibc")
 				} else {
 					return nil
 				}
